@@ -110,7 +110,8 @@ func (s *serviceImpl) Add(obj Actor) (index uint32, err error) {
 
 	s.Lock()
 	if err != nil {
-		s.objects[index] = nil
+		delete(s.objects, index)
+		delete(s.boxes, index)
 	} else {
 		s.objects[index] = obj
 		s.boxes[index] = NewMailBox(obj)
